@@ -38,7 +38,7 @@ D1_ARGS = [["p"], ["x"], ["q"], ["w"], ["time"]]
 D2_ARGS = [["d1"], ["p", "q"], ["x", "d1"], ["v"]]
 D3_ARGS = [None, ["d2"], ["d1", "p"]]
 V_ARGS = [["x", "p"], ["x", "q"], ["x", "d1"]]
-COEF = [None, ["p"], ["q"], ["d1"]]
+COEF = [None, ["p"], ["q"], ["d1"], ["w"], ["x"], ["w", "p"]]
 WEIGHT = {"p": 2.0, "x": 3.0, "q": 5.0, "w": 7.0, "d1": 11.0, "d2": 13.0, "d3": 17.0, "v": 19.0, "time": 23.0, "y": 29.0}
 CONST = {"q": 0.5, "w": 0.25, "d1": 1.5, "d2": 2.5, "d3": 3.5, "v": 0.75, "coef": 1.25}
 
